@@ -29,7 +29,7 @@ type Class struct {
 }
 
 var classes = []*Class{
-	{ID: "default", Full: `[^/]+`, Samples: []string{"1", "22", "abc", "x.y", "a-b", "v1.0", "a%20b", "%2541"}, Near: []string{""}},
+	{ID: "default", Full: `[^/]+`, Samples: []string{"1", "22", "abc", "x.y", "a-b", "v1.0", "a%20b", "%2541", "what?", "a?b=c", "x#y"}, Near: []string{""}},
 	{ID: "digits", Re: `\d+`, Full: `\d+`, Samples: []string{"1", "22", "007"}, Near: []string{"a", "1a", ""}},
 	{ID: "ac", Re: `[a-c]+`, Full: `[a-c]+`, Samples: []string{"a", "abc", "cab"}, Near: []string{"d", "ab1", ""}},
 	{ID: "pos", Re: `[1-9]\d*`, Full: `[1-9]\d*`, Samples: []string{"1", "22", "90"}, Near: []string{"0", "01", "a"}},
